@@ -222,7 +222,35 @@ def _get_region_params(region, shape_template, precision=8):
     return param_str
 
 
+def _to_frame_written(region):
+    """
+    Return the region with all its coordinates in the frame its DS9
+    frame keyword stands for: the frame of its first coordinate, at the
+    default equinox for FK4/FK5 (B1950/J2000).
+    """
+    if isinstance(region, PixelRegion):
+        return region
+    ref = None
+    changes = {}
+    for name in region._params:
+        val = getattr(region, name)
+        if not isinstance(val, SkyCoord):
+            continue
+        if ref is None:
+            ref = val.frame.replicate_without_data()
+            if ref.name in ('fk4', 'fk5'):
+                ref = type(ref)()
+            # attributes given explicitly: transform_to lets the
+            # coordinate's own attributes win over frame defaults
+            ref = type(ref)(**{attr: getattr(ref, attr)
+                               for attr in ref.frame_attributes})
+        if not val.frame.is_equivalent_frame(ref):
+            changes[name] = val.transform_to(ref)
+    return region.copy(**changes) if changes else region
+
+
 def _serialize_region_ds9(region, precision=8):
+    region = _to_frame_written(region)
     frame_mapping = {v: k for k, v in ds9_frame_map.items()}
     frame = _get_frame_name(region, mapping=frame_mapping)
     if frame is None:
